@@ -41,12 +41,16 @@ Proof. unfold drun, d_bool, dlift; cbn [snd]. rewrite rd_bool_put. reflexivity. 
 Lemma drun_str b rest : len32 b -> drun d_str (put_lp4 b ++ rest) = MOk (b, rest).
 Proof. intros H. unfold drun, d_str. rewrite rd_lp4_put by exact H. reflexivity. Qed.
 
+Lemma drun_sub b rest : len32 b -> drun d_sub (put_lp4 b ++ rest) = MOk (b, rest).
+Proof. intros H. unfold drun, d_sub, dlift; cbn [snd]. rewrite rd_lp4_put by exact H. reflexivity. Qed.
+
 (** one step of a round-trip proof: run the next reader of a [dbind] chain on the next written field *)
 Ltac rt_side :=
   first [ assumption | reflexivity | (unfold in_i32, in_i64, len32 in *; lia) ].
 Ltac rt_prim :=
   lazymatch goal with
   | |- drun d_str _ = _ => apply drun_str; rt_side
+  | |- drun d_sub _ = _ => apply drun_sub; rt_side
   | |- drun d_u8 _ = _ => apply drun_u8; rt_side
   | |- drun d_u16 _ = _ => apply drun_u16; rt_side
   | |- drun d_u32 _ = _ => apply drun_u32; rt_side
@@ -143,6 +147,39 @@ Proof.
 Qed.
 Lemma addb_str : addb 0 d_str.
 Proof. intros bs. unfold d_str. destruct (rd_lp4 bs) as [[s t]|] eqn:E; [apply rd_lp4_len in E|]; lia. Qed.
+
+Lemma addb_sub : addb 0 d_sub.
+Proof. intros bs. unfold d_sub, dlift. destruct (rd_lp4 bs) as [[s t]|] eqn:E; cbn; [apply rd_lp4_len in E|]; lia. Qed.
+
+(** * allocation, proportional form: on success the bytes allocated are covered by [c] times the bytes
+    consumed; on failure by [c] times the whole input plus [K] (one pre-allocation that the input did
+    not back) *)
+Definition linb {A} (c K : N) (m : dec A) : Prop :=
+  forall bs, match m bs with
+             | (a, MOk (_, bs')) => (length bs' <= length bs)%nat /\ a + c * N.of_nat (length bs') <= c * N.of_nat (length bs)
+             | (a, MErr _) => a <= c * N.of_nat (length bs) + K
+             end.
+Lemma linb_bind {A B} c K (m : dec A) (f : A -> dec B) :
+  linb c K m -> (forall x, linb c K (f x)) -> linb c K (dbind m f).
+Proof.
+  intros Hm Hf bs. unfold dbind. specialize (Hm bs). destruct (m bs) as [a [[x t]|e]]; [|lia].
+  specialize (Hf x t). destruct (f x t) as [a' [[y t']|e']]; nia.
+Qed.
+Lemma linb_of_addb0 {A} c K (m : dec A) : 1 <= c -> addb 0 m -> linb c K m.
+Proof. intros Hc H bs. specialize (H bs). destruct (m bs) as [a [[x t]|e]]; nia. Qed.
+Lemma linb_mono {A} c c' K K' (m : dec A) : c <= c' -> K <= K' -> linb c K m -> linb c' K' m.
+Proof. intros Hc HK H bs. specialize (H bs). destruct (m bs) as [a [[x t]|e]]; nia. Qed.
+Lemma linb_dret {A} c K (a : A) : linb c K (dret a).
+Proof. intros bs. cbn. lia. Qed.
+Lemma linb_dfail {A} c K e : linb c K (@dfail A e).
+Proof. intros bs. cbn. lia. Qed.
+
+(** a successful run consumed at least [n] bytes *)
+Definition consumes {A} (n : N) (m : dec A) : Prop :=
+  forall bs x bs', drun m bs = MOk (x, bs') -> n + N.of_nat (length bs') <= N.of_nat (length bs).
+Lemma dcost_bind {A B} (m : dec A) (f : A -> dec B) bs :
+  dcost (dbind m f) bs = dcost m bs + match drun m bs with MOk (x, bs') => dcost (f x) bs' | MErr _ => 0 end.
+Proof. unfold dcost, drun, dbind. destruct (m bs) as [a [[x t]|e]]; cbn; [destruct (f x t); reflexivity|lia]. Qed.
 
 (** * no crash, no fuel exhaustion *)
 Definition bad (e : merr) : Prop := e = MECrash \/ e = MEFuel.
